@@ -332,7 +332,17 @@ def run_case(case, delta):
     blocks = Blocks()
     rec = Recorder(progfiles, labels, blocks)
     inner = case.get('inner_snaps', True)
-    nss, funcs = load_program(prog, {'tick': rec.tick, 'prof': rec, 'snap': (rec.snapshot if inner else (lambda: None))})
+
+    def limited(f, budget=12):
+        # a program may reach its snap() in a loop: only the first few calls take a snapshot (the same ones in both runs)
+        left = [budget]
+
+        def g():
+            if left[0] > 0:
+                left[0] -= 1
+                f()
+        return g
+    nss, funcs = load_program(prog, {'tick': rec.tick, 'prof': rec, 'snap': (limited(rec.snapshot) if inner else (lambda: None))})
     rec.declare(funcs)
     rec.ops.append('delta %d' % (delta if with_time else 0))
     resA = run_steps(prog, steps, rec, nss, funcs, rec.snapshot)
@@ -352,7 +362,7 @@ def run_case(case, delta):
 
     def snap():
         snaps.append('stats ' + canon_stats(p.get_stats().timings, labelsB, with_time))
-    nssB, funcsB = load_program(prog, {'tick': realtick, 'prof': p, 'snap': (snap if inner else (lambda: None))})
+    nssB, funcsB = load_program(prog, {'tick': realtick, 'prof': p, 'snap': (limited(snap) if inner else (lambda: None))})
     for i, (fname, name, fn) in enumerate(funcsB):
         c = fn.__code__
         blocksB.blk(c.co_code)
